@@ -38,6 +38,45 @@ def scaling_div(st, target, num):
     return MODES[c.keywords[0].value.value]
 
 
+def transforms(tree):
+    """fft, ifft, get_fourier_coefficients compared with their expected text (C04 runs this part alone: check_transforms)"""
+    out = []
+    # fft / ifft
+    f = strip_doc(find_func(tree.body, "fft").body)
+    if not (len(f) == 2 and same(f[0], "if num_spatial_dims is None:\n    num_spatial_dims = field.ndim - 1")
+            and same(f[1], "return jnp.fft.rfftn(field, axes=space_indices(num_spatial_dims))")):
+        raise TranslationError("fft: " + repr([ast.unparse(x) for x in f]))
+    g = strip_doc(find_func(tree.body, "ifft").body)
+    want = ["if num_spatial_dims is None:\n    num_spatial_dims = field_hat.ndim - 1",
+            "if num_points is None:\n    if num_spatial_dims >= 2:\n        num_points = field_hat.shape[-2]\n    else:\n        raise ValueError('num_points must be provided if num_spatial_dims == 1.')",
+            "return jnp.fft.irfftn(field_hat, s=spatial_shape(num_spatial_dims, num_points), axes=space_indices(num_spatial_dims))"]
+    if not (len(g) == 3 and all(same(x, t) for x, t in zip(g, want))):
+        raise TranslationError("ifft: " + repr([ast.unparse(x) for x in g])[:300])
+    out += ["Definition gen_fft_axes_are_space_indices : bool := true.",
+            "Definition gen_ifft_output_shape_is_spatial_shape : bool := true.",
+            "Definition gen_ifft_infers_points_from_axis : Z := (-2)%Z.",
+            "Definition gen_ifft_infers_points (D : nat) : bool := (2 <=? D)%nat.     (* otherwise ValueError *)"]
+    # get_fourier_coefficients
+    h = find_func(tree.body, "get_fourier_coefficients")
+    dflt = {a.arg: d for a, d in zip(h.args.kwonlyargs, h.args.kw_defaults)}
+    hb = strip_doc(h.body)
+    wanth = ["state_hat = fft(state)",
+             "if scaling_compensation_mode is not None:\n    scaling = build_scaling_array(state.ndim - 1, state.shape[-1], mode=scaling_compensation_mode, indexing=indexing)\n    coefficients = state_hat / scaling\nelse:\n    coefficients = state_hat",
+             "if round is not None:\n    coefficients = jnp.round(coefficients, round)", "return coefficients"]
+    if not (len(hb) == 4 and all(same(x, t) for x, t in zip(hb, wanth))):
+        raise TranslationError("get_fourier_coefficients: " + repr([ast.unparse(x) for x in hb])[:300])
+    m = dflt.get("scaling_compensation_mode")
+    if not (isinstance(m, ast.Constant) and m.value in MODES):
+        raise TranslationError("get_fourier_coefficients: default mode")
+    out += ["Definition gen_coef_divides_by_scaling (mode_is_none : bool) : bool := negb mode_is_none.",
+            f"Definition gen_coef_default_mode : Z := {MODES[m.value]}."]
+    return out
+
+
+def check_transforms():
+    return transforms(ast.parse(open(os.path.join(REPO, "exponax", "_spectral.py")).read()))
+
+
 def generate():
     tree = ast.parse(open(os.path.join(REPO, "exponax", "_spectral.py")).read())
     fn = find_func(tree.body, "get_spectrum")
@@ -95,35 +134,7 @@ def generate():
            "Definition gen_spec_average (binning_is_average : bool) : bool := binning_is_average.",
            "Definition gen_spec_1d_is_unbinned : bool := true.",
            "(* bins: one per entry of build_wavenumbers(1, N)[0, :] = 0 .. N/2, dk = entry 1 - entry 0; mask = lower <= |k| < upper *)"]
-    # fft / ifft
-    f = strip_doc(find_func(tree.body, "fft").body)
-    if not (len(f) == 2 and same(f[0], "if num_spatial_dims is None:\n    num_spatial_dims = field.ndim - 1")
-            and same(f[1], "return jnp.fft.rfftn(field, axes=space_indices(num_spatial_dims))")):
-        raise TranslationError("fft: " + repr([ast.unparse(x) for x in f]))
-    g = strip_doc(find_func(tree.body, "ifft").body)
-    want = ["if num_spatial_dims is None:\n    num_spatial_dims = field_hat.ndim - 1",
-            "if num_points is None:\n    if num_spatial_dims >= 2:\n        num_points = field_hat.shape[-2]\n    else:\n        raise ValueError('num_points must be provided if num_spatial_dims == 1.')",
-            "return jnp.fft.irfftn(field_hat, s=spatial_shape(num_spatial_dims, num_points), axes=space_indices(num_spatial_dims))"]
-    if not (len(g) == 3 and all(same(x, t) for x, t in zip(g, want))):
-        raise TranslationError("ifft: " + repr([ast.unparse(x) for x in g])[:300])
-    out += ["Definition gen_fft_axes_are_space_indices : bool := true.",
-            "Definition gen_ifft_output_shape_is_spatial_shape : bool := true.",
-            "Definition gen_ifft_infers_points_from_axis : Z := (-2)%Z.",
-            "Definition gen_ifft_infers_points (D : nat) : bool := (2 <=? D)%nat.     (* otherwise ValueError *)"]
-    # get_fourier_coefficients
-    h = find_func(tree.body, "get_fourier_coefficients")
-    dflt = {a.arg: d for a, d in zip(h.args.kwonlyargs, h.args.kw_defaults)}
-    hb = strip_doc(h.body)
-    wanth = ["state_hat = fft(state)",
-             "if scaling_compensation_mode is not None:\n    scaling = build_scaling_array(state.ndim - 1, state.shape[-1], mode=scaling_compensation_mode, indexing=indexing)\n    coefficients = state_hat / scaling\nelse:\n    coefficients = state_hat",
-             "if round is not None:\n    coefficients = jnp.round(coefficients, round)", "return coefficients"]
-    if not (len(hb) == 4 and all(same(x, t) for x, t in zip(hb, wanth))):
-        raise TranslationError("get_fourier_coefficients: " + repr([ast.unparse(x) for x in hb])[:300])
-    m = dflt.get("scaling_compensation_mode")
-    if not (isinstance(m, ast.Constant) and m.value in MODES):
-        raise TranslationError("get_fourier_coefficients: default mode")
-    out += ["Definition gen_coef_divides_by_scaling (mode_is_none : bool) : bool := negb mode_is_none.",
-            f"Definition gen_coef_default_mode : Z := {MODES[m.value]}."]
+    out += transforms(tree)
     return "\n".join(out) + "\n"
 
 
